@@ -205,7 +205,13 @@ def run_impl(case):
                         d = collections.UserDict(d)
                     p.objects = d
                 elif o == 'assign':
-                    setattr(inst, 's', _o(op['v']) if kind == 'Selector' else [_o(op['v'])])
+                    if kind == 'Selector':
+                        setattr(inst, 's', _o(op['v']))
+                    else:
+                        # a ListSelector value is a list: the same item once or (`dup`) twice - a non-checking
+                        # ListSelector must add a new item to its objects once
+                        item = _o(op['v'])
+                        setattr(inst, 's', [item, item] if op.get('dup') else [item])
                 else:
                     raise RuntimeError(o)
             except (IndexError, ValueError, KeyError) as e:
@@ -239,6 +245,7 @@ def _decls():
     yield 'Selector', {'objs': [0, 1, 2], 'names': [['a', 0], ['', 1], ['c', 2]], 'check_on_set': True}
     yield 'Selector', {'objs': [0, 1], 'names': None, 'check_on_set': True}
     yield 'Selector', {'objs': [1, 2], 'names': None, 'check_on_set': False}
+    yield 'ListSelector', {'objs': [1, 2], 'names': None, 'check_on_set': False}
     yield 'Selector', {'objs': [1, 2], 'names': [['a', 1], ['b', 2]], 'check_on_set': False}
     # an unhashable object (a set) and an object labelled by its `name` attribute (`_named_objs`)
     yield 'Selector', {'objs': [900, 910, 2], 'names': None, 'check_on_set': True}
@@ -254,7 +261,7 @@ def _alphabet(style, pos):
     n1, n2 = 10 + 2 * pos, 11 + 2 * pos
     common_ops = [{'op': 'popIdx', 'i': 0}, {'op': 'popIdx', 'i': -1, 'default': True}, {'op': 'popIdx', 'i': 1},
                   {'op': 'popIdx', 'i': 7}, {'op': 'remove', 'o': 2}, {'op': 'remove', 'o': 99}, {'op': 'clear'},
-                  {'op': 'assign', 'v': 1}, {'op': 'assign', 'v': n1}, {'op': 'assign', 'v': 10}]
+                  {'op': 'assign', 'v': 1}, {'op': 'assign', 'v': n1}, {'op': 'assign', 'v': 10}, {'op': 'assign', 'v': n2, 'dup': True}]
     if style == 'list':
         return common_ops + [{'op': 'setIdx', 'i': 0, 'o': n1}, {'op': 'setIdx', 'i': -1, 'o': n1},
                              {'op': 'setIdx', 'i': 5, 'o': n1}, {'op': 'append', 'o': n1},
@@ -338,6 +345,8 @@ def _random_case(rng):
             op = {'op': 'clear'}
         elif r < 0.33:
             op = {'op': 'assign', 'v': existing() if rng.random() < 0.7 else next(fresh)}
+            if kind == 'ListSelector' and rng.random() < 0.4:
+                op['dup'] = True
         elif r < 0.38:
             if st == 'list':
                 op = {'op': 'replaceList', 'os': [newo() for _ in range(rng.randint(0, 4))]}
